@@ -4,26 +4,27 @@
 EXTENDS TraceCommon, System
 RD == INSTANCE Render
 
-VARIABLES case, texts, exited, badflag
-fam == <<case, texts, exited, badflag>>
+VARIABLES case, texts, exited, badflag, metric
+fam == <<case, texts, exited, badflag, metric>>
 vars == <<tcvars, fam>>
-NoCase == [ctrs |-> <<>>, sel |-> <<>>, stages |-> <<>>, start |-> <<0, 0>>, end |-> <<0, 0>>, limit |-> 0 - 1, opts |-> <<FALSE, FALSE, FALSE>>]
+NoCase == [ctrs |-> <<>>, sel |-> <<>>, stages |-> <<>>, start |-> <<0, 0>>, end |-> <<0, 0>>, limit |-> 0 - 1, opts |-> <<FALSE, FALSE, FALSE>>, since |-> 0]
 
-Init == TCInit /\ case = NoCase /\ texts = <<>> /\ exited = FALSE /\ badflag = <<>>
+Init == TCInit /\ case = NoCase /\ texts = <<>> /\ exited = FALSE /\ badflag = <<>> /\ metric = FALSE
 Start == Begin /\ case' = [ctrs |-> Trace[l].in.ctrs, sel |-> Trace[l].in.sel, stages |-> Trace[l].in.stages, start |-> Trace[l].in.start,
-                           end |-> Trace[l].in.end, limit |-> Trace[l].in.limit, opts |-> Trace[l].in.opts]
-         /\ texts' = <<>> /\ exited' = FALSE /\ badflag' = (IF Has(Trace[l].in, "badflag") THEN Trace[l].in.badflag ELSE <<>>)
+                           end |-> Trace[l].in.end, limit |-> Trace[l].in.limit, opts |-> Trace[l].in.opts, since |-> Fld(Trace[l].in, "since", 0)]
+         /\ texts' = <<>> /\ exited' = FALSE /\ badflag' = Fld(Trace[l].in, "badflag", <<>>) /\ metric' = Fld(Trace[l].in, "metric", FALSE)
 
 \* the command line the probe built (free: recorded for the reader of a replay)
 EvArgs == IsEv("Args") /\ CaseWellFormed(case) /\ Accept /\ UNCHANGED fam
 BadCase == RejectEnv /\ Ev.ev = "Args" /\ ~CaseWellFormed(case) /\ UNCHANGED fam
 \* trusted base: RFC3339Nano text of every frame's timestamp
-EvTexts == IsEv("TsTexts") /\ Accept /\ texts' = Ev.texts /\ UNCHANGED <<case, exited, badflag>>
-\* a well-formed command over a healthy daemon succeeds; one with a malformed flag value is refused and prints nothing
-ExitOk == ~exited /\ (Ev.ok = (badflag = <<>>))
-EvExit == IsEv("Exit") /\ ExitOk /\ Accept /\ exited' = TRUE /\ UNCHANGED <<case, texts, badflag>>
+EvTexts == IsEv("TsTexts") /\ Accept /\ texts' = Ev.texts /\ UNCHANGED <<case, exited, badflag, metric>>
+\* a well-formed command over a healthy daemon succeeds; one with a malformed flag value is refused and prints nothing;
+\* so does a metric query (the command has no rendering for samples: it fails after evaluating, it does not print something else)
+ExitOk == ~exited /\ (Ev.ok = (badflag = <<>> /\ ~metric))
+EvExit == IsEv("Exit") /\ ExitOk /\ Accept /\ exited' = TRUE /\ UNCHANGED <<case, texts, badflag, metric>>
 E == Printed(case)
-RenderedOk == exited /\ (IF badflag = <<>> THEN RD!CanParse(Ev.out, 1, E, DOMAIN E, {}, case.opts, texts) ELSE Ev.out = <<>>)
+RenderedOk == exited /\ (IF badflag = <<>> /\ ~metric THEN RD!CanParse(Ev.out, 1, E, DOMAIN E, {}, case.opts, texts) ELSE Ev.out = <<>>)
 EvRendered == IsEv("Rendered") /\ RenderedOk /\ Accept /\ UNCHANGED fam
 
 Explained == \/ Ev.ev \in {"Args", "TsTexts"}
